@@ -457,6 +457,61 @@ def run(ctx, ck):
         ok = len(apps) == 1 and gfl2.cfg.must_pass(gfl2.cfg.exit.id, {gfl2.node_id_of(apps[0])})
         ck.ob('R-EXH.writer-loops', q + '|recorded', ok, g.loc(), 'every transformation is recorded for the writer')
 
+    # ---------------------------------------------------------------- media: what only a medium with a successor has
+    # The reader gives a medium without a fourth field the interface coordinate "infinity", and the boundary kind /
+    # ground screen belong to the first medium.  On every path of Medium.as_cmdline on which the medium may have a
+    # successor the --medium line must carry the coordinate; on every path on which it may be the first of several
+    # the boundary must be written, and the ground screen wherever the first medium may have one.
+    ck.rule('R-WR.medium-interface', 'every medium that has a successor is written with its interface coordinate')
+    mw = m.func('mininec.Medium.as_cmdline')
+    mev = Evaluator(mw)
+    wq_all = {g_.qual for g_ in m.all_funcs() if g_.name.startswith('as_cmdline')}
+    n_mp = 0
+    bad_m = None
+    for p_ in writer_paths(ctx, mw, wq_all):
+        cd = {t_: b_ for t_, b_ in p_.conds if isinstance(b_, bool)}
+        for t_ in list(cd):
+            if t_.endswith(' is None') or t_.endswith(' is not None'):
+                base, neg = (t_[:-8], True) if t_.endswith(' is None') else (t_[:-12], False)
+                cd.setdefault(base, (not cd[t_]) if neg else cd[t_])
+        lines = {}
+        # the text the writer hands back on this path: '\n'.join([...]) or one line
+        rv = p_.ret
+        if rv is None:
+            raise AnalysisError('%s: a path returns nothing' % mw.qual)
+        parts = [rv]
+        if isinstance(rv, ast.Call) and isinstance(rv.func, ast.Attribute) and rv.func.attr == 'join' and \
+           isinstance(rv.func.value, ast.Constant) and rv.func.value.value == '\n' and len(rv.args) == 1 and \
+           isinstance(rv.args[0], (ast.List, ast.Tuple)):
+            parts = list(rv.args[0].elts)
+        from ..fmt import split_lines
+        for e_ in parts:
+            for t, rep in split_lines(mev.template(e_, {})):
+                txt = template_text(t)
+                mo_ = OPT_RE.match(txt)
+                if mo_:
+                    lines[mo_.group(1)] = [arg_text(x_[2]) for x_ in t if x_[0] == 'conv']
+                elif txt.strip():
+                    raise AnalysisError('%s: a returned line is not understood: %s' % (mw.qual, txt[:60]))
+        if '--medium' not in lines:
+            bad_m = bad_m or 'a path writes no --medium line'
+            continue
+        n_mp += 1
+        may_next = cd.get('self.next') is not False
+        may_first = cd.get('self.prev') is not True
+        if may_next and not (len(lines['--medium']) >= 4 and lines['--medium'][3] == 'self.coord'):
+            bad_m = bad_m or ('a medium that has a successor%s is written as --medium with %d fields: the interface '
+                              'coordinate is lost and read back as infinity' % (
+                                  ' and a predecessor' if cd.get('self.prev') is True else '', len(lines['--medium'])))
+        if may_next and may_first and lines.get('--boundary') != ['self.boundary']:
+            bad_m = bad_m or 'the first of several media is written without its --boundary'
+        if may_first and cd.get('self.nradials') is not False and \
+           (lines.get('--radial-count') != ['self.nradials'] or lines.get('--radial-radius') != ['self.radius']):
+            bad_m = bad_m or 'a first medium with a ground screen is written without --radial-count / --radial-radius'
+    ck.floor('paths of Medium.as_cmdline', n_mp, 2)
+    ck.ob('R-WR.medium-interface', mw.qual, bad_m is None, mw.loc(),
+          bad_m or 'coordinate, boundary and ground screen written wherever the medium may have them (%d paths)' % n_mp)
+
     # ---------------------------------------------------------------- D5 load numbering
     order = reader_load_class_order(ctx.flat(mainf))     # tables of (name, class, ...) rows spelled out
     ck.info('reader_load_class_order', order)
